@@ -19,6 +19,8 @@
 #include <fstream>
 #include <sstream>
 #include <functional>
+#include <algorithm>
+#include <ctime>
 #include <unistd.h>
 #include <fcntl.h>
 #include <sys/wait.h>
@@ -55,7 +57,14 @@ struct Engine {
     uint64_t sig2 = 0;   // optional second distinctness measure (0 = none), e.g. hash of the executed thread schedule
 };
 
+// self-test knob of the watchdog (never set by the checks): SIM_TEST_HANG_PLAN=<plan hash> makes the execution of that plan spin forever
+inline void test_hang_hook(const Plan& p) {
+    static const char* want = getenv("SIM_TEST_HANG_PLAN");
+    if (want && std::to_string(p.hash()) == want) { volatile unsigned long spin = 0; for (;;) spin++; }
+}
+
 inline Outcome run_one(Engine& e, const Plan& p, bool keep_trace = false) {
+    test_hang_hook(p);
     trace().reset(keep_trace);
     verdict().clear();
     e.sig = 0; e.ticks = 0; e.nontrivial = false; e.sig2 = 0;
@@ -74,7 +83,11 @@ inline std::string sanitize_line(std::string s) {
 }
 
 // Execute a plan in a forked child so that a crash inside the system under test is an outcome, not the end of the worker.
-inline Outcome run_forked(Engine& e, const Plan& p, int timeout_s = 60) {
+// seconds after which a run counts as hung: one value for the in-process watchdog of the search loop and for forked executions
+inline int& hang_timeout() { static int t = 20; return t; }
+
+inline Outcome run_forked(Engine& e, const Plan& p, int timeout_s = 0) {
+    if (timeout_s <= 0) timeout_s = hang_timeout();
     int fd[2], efd[2];
     if (pipe(fd) || pipe(efd)) { perror("pipe"); exit(2); }
     fflush(stdout); fflush(stderr);
@@ -139,11 +152,14 @@ inline Outcome run_forked(Engine& e, const Plan& p, int timeout_s = 60) {
 struct Minimiser {
     Engine& e; std::string vclass, key; int budget; int execs = 0;
     bool fast;   // in-process candidate execution (only when the failure is not a crash)
-    Minimiser(Engine& e_, const Outcome& o, int budget_, bool fast_) : e(e_), vclass(o.vclass), key(o.key), budget(budget_), fast(fast_) {}
+    time_t t0; int wall_budget_s;
+    Minimiser(Engine& e_, const Outcome& o, int budget_, bool fast_) : e(e_), vclass(o.vclass), key(o.key), budget(budget_), fast(fast_), t0(time(nullptr)),
+        wall_budget_s(o.vclass == "HANG" ? 60 : 180) {}
     bool still_fails(const Plan& p) {
-        if (execs >= budget) return false;
+        // a hung candidate costs its whole time-out: candidates run against a short time-out (normal runs take milliseconds) and a wall-clock budget
+        if (execs >= budget || time(nullptr) - t0 > wall_budget_s) { execs = budget; return false; }
         execs++;
-        Outcome o = fast ? run_one(e, p) : run_forked(e, p);
+        Outcome o = fast ? run_one(e, p) : run_forked(e, p, 5);
         return o.vclass == vclass && o.key == key;
     }
     Plan run(Plan p) {
@@ -223,6 +239,7 @@ inline int sim_main(int argc, char** argv, Engine& e) {
     std::string tier = opt("--tier", "quick");
     std::string outdir = opt("--replay-dir", "replays");
     int min_budget = std::atoi(opt("--min-budget", "1500").c_str());
+    hang_timeout() = std::max(1, std::atoi(opt("--hang-timeout", "20").c_str()));
     setvbuf(stdout, nullptr, _IOLBF, 0);
 
     if (mode == "--replay") {
@@ -295,7 +312,11 @@ inline int sim_main(int argc, char** argv, Engine& e) {
         Plan p = e.generate(run_seed_for(e, seed, idx), tier);
         if (verbose) printf("B %llu\n", (unsigned long long)idx);
         if (pfd >= 0) { char b[32]; int n = snprintf(b, sizeof b, "%020llu\n", (unsigned long long)idx); ssize_t w = pwrite(pfd, b, (size_t)n, 0); (void)w; }
+        // watchdog of the in-process search loop: a run that does not finish kills the worker (default action of SIGALRM); the driver
+        // finds the run through the progress file and confirms it alone in a forked child, where it is classified HANG
+        if (!forked) alarm((unsigned)hang_timeout());
         Outcome o = forked ? run_forked(e, p) : run_one(e, p);
+        if (!forked) alarm(0);
         if (verbose) printf("E %llu %llu %llu %d %llu %s\n", (unsigned long long)idx, (unsigned long long)o.hash, (unsigned long long)o.sig,
                o.nontrivial ? 1 : 0, (unsigned long long)o.ticks, o.failed() ? o.vclass.c_str() : "OK");
         a_evals++; a_ticks += o.ticks; if (o.nontrivial) a_sigs.push_back(o.sig); else a_trivial++;
@@ -307,7 +328,9 @@ inline int sim_main(int argc, char** argv, Engine& e) {
         }
         bool crashy = o.vclass == "CRASH" || o.vclass == "SANITIZER" || o.vclass == "HANG";
         // gate 1: the same plan must give the same verdict and the same trace hash again
+        if (!forked) alarm((unsigned)hang_timeout());
         Outcome o2 = forked ? run_forked(e, p) : run_one(e, p);
+        if (!forked) alarm(0);
         if (o2.vclass != o.vclass || o2.key != o.key || (!crashy && o2.hash != o.hash)) {
             printf("NONDET %llu first=%s/%llu second=%s/%llu\n", (unsigned long long)idx, o.vclass.c_str(), (unsigned long long)o.hash,
                    o2.vclass.c_str(), (unsigned long long)o2.hash);
